@@ -752,6 +752,9 @@ class Interp(EvalMixin, BuiltinMixin):
             return ListV([self.make_value(x, f"{base}[{i}]") for i, x in enumerate(d[1])])
         if isinstance(d, tuple) and d[0] == "func":
             return FuncRef(self.index.func(d[1]))
+        if isinstance(d, tuple) and d[0] == "cdict":
+            # dict with the given concrete keys
+            return DictV({k: self.make_value(dd, f"{base}[{k!r}]") for k, dd in d[1].items()})
         if isinstance(d, tuple) and d[0] == "match":
             # an abstract successful regex match with d[1] capture groups (fresh strings); .group(k) / .groups() read them
             m = MatchV(None, None, None)
